@@ -21,7 +21,10 @@ def L(v):
 def leaves(n):
     """leaf forms carrying a reference to name n / to the current message / to nothing"""
     return [('num', ('fa', ('var', n), 'x')), ('num', ('idx', ('fa', ('var', n), 'xs'), L(0))), ('num', X), ('num', L(1)),
-            ('num', ('idx', XS, ('fa', ('var', n), 'i'))), ('num', ('fa', ('fa', ('var', n), 'm'), 'x'))]
+            ('num', ('idx', XS, ('fa', ('var', n), 'i'))), ('num', ('fa', ('fa', ('var', n), 'm'), 'x')),
+            # chains that mix roots: another message at the base, the current message only inside an index (and the reverse), a field outermost
+            ('num', ('fa', ('idx', ('fa', ('var', n), 'ms'), ('f', 'i')), 'z')), ('num', ('fa', ('idx', ('f', 'ms'), ('fa', ('var', n), 'k')), 'z')),
+            ('num', ('idx', ('fa', ('idx', ('fa', ('fa', ('var', n), 'a'), 'ms'), L(0)), 'zs'), ('idx', XS, L(1))))]
 
 
 def contexts(leaf):
@@ -223,7 +226,7 @@ def main() -> int:
     ck.sample({'tree_template': gen.render(subst(items[7][0], {'N1': 'n', 'QV': 'v', 'QW': 'w'})), 'symbolic_names': ['n', 'v', 'w', 'probe', 'alias']})
     ck.sample({'tree_template': gen.render(subst(items[len(items) // 2][0], {'N1': 'n', 'QV': 'v', 'QW': 'w'})), 'symbolic_names': ['n', 'v', 'w', 'probe', 'alias']})
     ck.engine('SP', trees=len(items), paths=paths, paths_where_names_make_the_tree_invalid=skipped, wall_s=round(time.time() - t0, 1))
-    ck.bound('trees', f'{len(items)} templates: 6 leaf forms (alias field, alias array element, own field, literal, index expression, nested message field) x 27 (node kind x child slot) contexts'
+    ck.bound('trees', f'{len(items)} templates: 9 leaf forms (alias field, alias array element, own field, literal, index expression, nested message field, alias chain with an own-field index and a trailing field, own chain with an alias index, depth-5 mixed chain) x 27 (node kind x child slot) contexts'
              + ' x 4 (bare + 3 wrappers)' + ', each at expression, predicate, event and event-disjunction level')
     ck.bound('names', 'variable / quantifier / probe / event-alias names symbolic: every equality pattern between them')
     ck.coverage['evaluations'] = paths
